@@ -393,6 +393,11 @@ def equal(a, b):
         za = a.z if isinstance(a, SVal) else z3.BitVecVal(a, 64)
         zb = b.z if isinstance(b, SVal) else z3.BitVecVal(b, 64)
         return za == zb
+    if ka == KBool and kb == KBool:
+        # Bool == Bool as an equivalence (not through 0/1): keeps quantified operands out of ite terms
+        za = a.z if isinstance(a, SVal) else zbool(a)
+        zb = b.z if isinstance(b, SVal) else zbool(b)
+        return za == zb
     np_ = _num_pair(a, b)
     if np_ is not None:
         return np_[0] == np_[1]
